@@ -61,6 +61,11 @@ EDITS = {
         ("hp03", RT + "vm/heap.rs", "obj.refcount += 1;", "obj.refcount += 2;", "both", "heap"),
         ("hp04", RT + "vm/heap.rs", "        log::trace!(\"heap_release_closure: freeing {idx:?}\");\n        storage.remove(idx);", "        log::trace!(\"heap_release_closure: freeing {idx:?}\");", "both", "heap"),
         ("hp05", RT + "vm/heap.rs", "            refcount: 1,\n            size,\n            data: vec![0; size],", "            refcount: 0,\n            size,\n            data: vec![0; size],", "verus", "heap"),
+        ("cl01", RT + "vm.rs", "            if !self.get_closure(closure_idx).is_closed {\n                self.drop_closure(closure_idx);", "            if self.get_closure(closure_idx).is_closed {\n                self.drop_closure(closure_idx);", "verus", "closures"),
+        ("cl02", RT + "vm.rs", "        // the refcount will still be > 0 after this release.\n        heap::heap_release(&mut self.heap, heap_idx);", "        // the refcount will still be > 0 after this release.", "verus", "closures"),
+        ("cl03", RT + "vm.rs", "        for &heap_idx in local_heap_closures {", "        for &heap_idx in local_heap_closures.iter().skip(1) {", "verus", "closures"),
+        ("cl04", RT + "vm.rs", "            if !cls.is_closed {\n                // log::debug!(\"release {:?}\", clsidx);", "            if cls.is_closed {\n                // log::debug!(\"release {:?}\", clsidx);", "verus", "closures"),
+        ("cl05", RT + "vm.rs", "heap::HeapObject::with_data(vec![Self::to_value(closure_idx)]);", "heap::HeapObject::with_data(vec![0, Self::to_value(closure_idx)]);", "verus", "closures"),
         ("hp06", RT + "vm/heap.rs", "        obj.refcount == 0\n    } else {", "        obj.refcount <= 1\n    } else {", "both", "heap"),
     ],
     "C11": [
